@@ -319,7 +319,13 @@ class Parser:
             self.statement = None
 
     def parse_statement(self) -> None:
-        _parse_result = self.yacc.parse(self.statement, lexer=self.lexer)
+        try:
+            _parse_result = self.yacc.parse(self.statement, lexer=self.lexer)
+        except SimpleDDLParserException:
+            # unknown symbol reported by the lexer: honour silent mode like p_error does
+            if not self.silent:
+                raise
+            _parse_result = None
         if _parse_result:
             self.tables.append(_parse_result)
 
